@@ -4,6 +4,9 @@
                    byte its peek already pulled out of the line/column iterator: with a byte pending,
                    position() must return a position that peek() saved *before* advancing the iterator;
                    without one, the iterator's own line/column.  SliceRead::peek must not advance.
+  R-QUOTE-SPAN     for a quote shorthand the head's span ends where the shorthand token ends: the end
+                   position handed to Datum::quotation is read *before* the quoted datum is parsed, and
+                   Datum::quotation uses the span it is given for the head
 Not decided: span arithmetic, containment, re-parsing of the covered text.
 """
 from .. import common, facts as F, sim
@@ -26,6 +29,7 @@ def run(ctx):
         "obtained before calling the iterator. This is a necessary condition for stream spans to equal slice spans; the "
         "span arithmetic itself is not decided.")
     ctx.trusted = ["rustc nightly MIR"]
+    quote_span(ctx, lexpr)
     r = ctx.rule("R-LOOKAHEAD-POS", "IoRead::position accounts for the pending lookahead byte; SliceRead::peek does not advance")
     pos = lexpr.fn(IO + "position")
     peek = lexpr.fn(IO + "peek")
@@ -121,3 +125,66 @@ def run(ctx):
             r.ok("IoRead::byte_offset also compensates for the pending byte", bo)
         else:
             r.violation(bo.path, "byte-offset-ignores-lookahead", "IoRead::byte_offset no longer looks at the pending byte", bo.loc())
+
+
+def quote_span(ctx, lexpr):
+    from .. import cfg
+    r = ctx.rule("R-QUOTE-SPAN", "the head span of a quote shorthand is closed before the quoted datum is parsed")
+    f = lexpr.fn("parse::Parser::<R>::next_datum")
+    q = lexpr.fn("datum::Datum::quotation")
+    if f is None or q is None:
+        r.anchor_missing("next_datum / Datum::quotation")
+        return
+    defs = common.defs_of(f)
+    idom = cfg.dominators(f)
+    qcalls = [(bi, t) for bi, t in f.calls() if t["callee"].get("path", "") == "datum::Datum::quotation"]
+    rec = [bi for bi, t in f.calls() if t["callee"].get("path", "").endswith("Parser::<R>::next_datum")]
+    if not qcalls or not rec:
+        r.anchor_missing("Datum::quotation call / recursive next_datum call in next_datum")
+        return
+    for bi, t in qcalls:
+        span_ty = [i for i, ty in enumerate(t.get("arg_tys", [])) if ty.endswith("Span")]
+        if not span_ty:
+            r.violation(f.path, "quotation-without-span",
+                        "next_datum no longer hands Datum::quotation the span of the shorthand token", f.loc(t.get("line")))
+            continue
+        o = common.origin(f, defs, t["args"][span_ty[0]])
+        okk = False
+        why = "the span argument is not built by Span::new(start, end-of-token)"
+        if o["k"] == "call" and o["t"]["callee"].get("path", "").endswith("Span::new"):
+            e = common.origin(f, defs, o["t"]["args"][1])
+            if e["k"] == "call" and "parse::read::Read::position" in F.callee_names(e["t"]):
+                pb = e["block"]
+                # the position is read before every recursive parse of the quoted datum
+                if all(cfg.dominates(idom, pb, rb) and pb != rb for rb in rec if cfg.dominates(idom, f.blocks[pb]["term"].get("t", pb), rb) or True) \
+                        and any(cfg.dominates(idom, pb, rb) for rb in rec):
+                    okk = True
+                else:
+                    why = "the end position is read after the quoted datum has been parsed"
+            else:
+                why = "the end of the head span does not come from read.position()"
+        if okk:
+            r.ok("next_datum: the head span ends at a position read before the quoted datum is parsed", f, t.get("line"))
+        else:
+            r.violation(f.path, "quote-head-span", "quote shorthand: %s, so the head's span does not cover just the "
+                                                   "shorthand characters" % why, f.loc(t.get("line")))
+    # Datum::quotation must use the span parameter for the head (first element of the pair info)
+    sp = None
+    for i in range(1, q.arg_count + 1):
+        if q.local_ty(i).endswith("Span"):
+            sp = i
+    if sp is None:
+        r.violation(q.path, "quotation-signature", "Datum::quotation no longer takes the shorthand's span", q.loc())
+        return
+    qdefs = common.defs_of(q)
+    used = False
+    for b in q.blocks:
+        for st in b["stmts"]:
+            if st["k"] == "assign" and st["rv"]["k"] == "agg" and st["rv"].get("vname") == "Prim":
+                o = common.origin(q, qdefs, st["rv"]["fields"][0])
+                if o["k"] == "param" and o["l"] == sp:
+                    used = True
+    if used:
+        r.ok("Datum::quotation stores the given span as SpanInfo::Prim for the head", q)
+    else:
+        r.violation(q.path, "head-span-not-from-parameter", "Datum::quotation does not use the shorthand's span for the head", q.loc())
